@@ -200,7 +200,7 @@ impl<'t> Interp<'t> {
                 self.check_new_block(arena, ptr, len, l.size(), l.align(), &snap, true);
                 if self.viols.is_empty() || self.in_bounds(&snap, ptr, len) {
                     if zeroed && self.on.c02 {
-                        if let Some(i) = (0..len).find(|&i| unsafe { ptr.add(i).read() } != 0) {
+                        if let Some(i) = sim::pattern::first_nonzero(ptr, 0, len) {
                             self.viol("C02/zeroed-not-zero", format!("allocate_zeroed: byte +{i} of the block at {:#x} is not zero", heap_off(ptr as usize)));
                         }
                     }
@@ -267,7 +267,7 @@ impl<'t> Interp<'t> {
                         if zeroed {
                             // old_size..old len: preserved or zero; old len..new len: zero
                             let from = b.len.max(old_size).min(len);
-                            if let Some(i) = (from..len).find(|&i| unsafe { ptr.add(i).read() } != 0) {
+                            if let Some(i) = sim::pattern::first_nonzero(ptr, from, len) {
                                 self.viol("C02/zeroed-not-zero", format!("grow_zeroed: byte +{i} of the new tail is not zero (block #{}, {} -> {} bytes)", b.id, old_size, new.size()));
                             }
                             for i in old_size..from {
@@ -313,10 +313,13 @@ impl<'t> Interp<'t> {
             if &now == old {
                 continue;
             }
-            for i in 0..old.len() {
-                if now[i] != old[i] {
+            let mut from = 0;
+            while let Some(i) = sim::pattern::first_diff(&now, old, from) {
+                from = i + 1;
+                {
                     let o = off + i;
                     if o >= new_off && o < new_off + new_len {
+                        from = new_off + new_len - off; // skip the rest of the new block
                         continue;
                     }
                     // inside a chunk header?
